@@ -216,6 +216,8 @@ MUTANTS = [
     M('so-when-fired-registers-always', 'txtorcon/util.py', "            d.callback(self._fired)\n        else:\n            self._observers.append(d)", "            d.callback(self._fired)\n        if self._observers is not None:\n            self._observers.append(d)", ['R-SO']),
 ]
 TWINS = [
+    M('deque-queue', F, ["from warnings import warn\n", "        self.commands = []       # queued commands", "            self.command = self.commands.pop(0)", "        outstanding = [self.command] + self.commands if self.command else self.commands", "        self.defer = None\n        self.commands = []\n"], ["from warnings import warn\nfrom collections import deque\n", "        self.commands = deque()  # queued commands", "            self.command = self.commands.popleft()", "        outstanding = [self.command] + list(self.commands) if self.command else list(self.commands)", "        self.defer = None\n        self.commands = deque()\n"]),
+    M('drain-in-loop', F, "        outstanding = [self.command] + self.commands if self.command else self.commands\n        self.command = None\n        self.defer = None\n        self.commands = []\n", "        outstanding = [self.command] + self.commands if self.command else list(self.commands)\n        self.command = None\n        self.defer = None\n        del self.commands[:]\n"),
     M('clear-queue', F, "        self.defer = None\n        self.commands = []\n", "        self.defer = None\n        del self.commands[:]\n"),
     M('outstanding-list', F, "outstanding = [self.command] + self.commands if self.command else self.commands", "outstanding = [self.command] + list(self.commands) if self.command else list(self.commands)"),
 ]
